@@ -143,6 +143,13 @@ class rrulebase(object):
                             self._cache_gen = None
                             self._cache_complete = True
                         break
+                    except Exception:
+                        # A generator that raised is finished for good and
+                        # would read as an exhausted rule: start it over
+                        if current:
+                            self._cache = []
+                            self._cache_gen = self._iter()
+                        raise
                 finally:
                     release()
             yield cache[i]
